@@ -33,6 +33,8 @@ func (g Dag) simulate() (map[string]string, map[string][]emitted) {
 			for _, v := range n.PVals {
 				em[n.Name] = append(em[n.Name], emitted{v, ""})
 			}
+		case "pcomb":
+			em[n.Name] = append([]emitted{}, em[n.PIn]...)
 		case "proc":
 			k := -1
 			upd := func(m int) {
